@@ -1,5 +1,43 @@
 """C02 check configuration: per-stream commit order, exactly once, conservation on the real pipeline's boundary trace."""
 
+import os, re
+
+
+def _plugin_sources(repo):
+    out = []
+    for root, _, files in os.walk(os.path.join(repo, "plugin")):
+        for f in files:
+            if f.endswith(".go") and not f.endswith("_test.go") and "verif" not in f:
+                out.append(os.path.join(root, f))
+    return out
+
+
+def _users(repo, pat):
+    hits = []
+    for p in _plugin_sources(repo):
+        src = re.sub(r"//[^\n]*", "", open(p, errors="replace").read())
+        if re.search(pat, src):
+            hits.append(os.path.relpath(p, repo))
+    return sorted(hits)
+
+
+def fact_break_only_split(repo):
+    """hypothesis of processor_obeys_discipline_partial: no plain action breaks; among the shipped plugins only split
+    returns ActionBreak (after Spawn, which first flushes every busy action)"""
+    hits = _users(repo, r"\bActionBreak\b")
+    if hits != ["plugin/action/split/split.go"]:
+        return False, "ActionBreak is returned by %r (modelled: only plugin/action/split/split.go)" % (hits,)
+    return True, ""
+
+
+def fact_hold_propagate_only_join(repo):
+    """the holder of M3 is join.Do + flush: the only shipped code that returns ActionHold or calls Propagate"""
+    hold = _users(repo, r"\bActionHold\b")
+    prop = _users(repo, r"\.Propagate\(")
+    if hold != ["plugin/action/join/join.go"] or prop != ["plugin/action/join/join.go"]:
+        return False, "ActionHold in %r, Propagate( in %r (modelled: only plugin/action/join/join.go)" % (hold, prop)
+    return True, ""
+
 
 def _toks(kind, impl):
     return [t for t in impl if t.startswith(kind + ":")]
@@ -56,11 +94,13 @@ CFG = {
     "shrink": shrink,
     "shrink_budget": 80,
     "manifest": {
-        "text": "Proof: on the Lean model M1 of the commit path, commits_in_read_order_partial (commit notifications of a stream strictly increase in read order), commit_offsets_increase, no_double_finish (no event committed or dropped twice) and conservation (once idle, accepted = commits + drops, each exactly once) hold for every op list without a dead queue; with a dead queue the order clause is refuted by a proved counterexample (known finding). Tie: boundary traces of the real pipeline replayed through the model; the Spec oracle (order, once, nothing lost when idle) is evaluated on the trace itself.",
-        "note": "Trusted: Lean kernel + standard axioms; fdmodel compilation; harness and trace hooks (verif tag). Assumed: Go mutex/cond/channel semantics; 'finished' = send returned nil or the error callback was invoked after the configured retries. The hand-over order guard of `add` is the interface to the stream/processor layer (checked on every trace; proved from the stream protocol in M2 where available). Not modelled: Spawn/split children, action internals.",
+        "text": "Proof: on the Lean model M1 of the commit path, commits_in_read_order_partial (commit notifications of a stream strictly increase in read order), commit_offsets_increase, no_double_finish (no event committed or dropped twice) and conservation (once idle, accepted = commits + drops, each exactly once) hold for every op list without a dead queue; with a dead queue the order clause is refuted by a proved counterexample (known finding). The hand-over discipline the stream layer M2 assumes of the processor is itself proved of a model of processor.go (M3: dischargeStream / processEvent / doActions / Propagate / Spawn with plain, join-like and split-like actions): processor_obeys_discipline_partial for every chain with at most one holding action, every input sequence, time-out placement and call depth; with two holders it is refuted (processor_discipline_counterexample_two_holders, the nested-Propagate known finding). Tie: boundary traces of the real pipeline replayed through M1 and M2; M3 predicts, from the case alone, every processor-side operation (hold, drop, propagate, out) of every stream and is compared with the trace (c02.run, c02.proc, and the C01 / c04.run cases); the Spec oracle (order, once, nothing lost when idle) is evaluated on the trace itself.",
+        "note": "Trusted: Lean kernel + standard axioms; fdmodel compilation; harness and trace hooks (verif tag). Assumed: Go mutex/cond/channel semantics; 'finished' = send returned nil or the error callback was invoked after the configured retries. The hand-over order guard of `add` is the interface to the stream/processor layer (checked on every trace; proved from the stream protocol in M2 where available). Not modelled: match conditions of actions, several busy-capable actions in one chain (outside the proved part), collapse-only plugins (parse_es, k8s multiline) as holders.",
         "technique": "Lean 4 proof (inductive invariant over op lists) + trace correspondence on the real pipeline",
     },
     "props_modules": ["FileD.Props.C02"],
+    "facts": [("only split returns ActionBreak", fact_break_only_split),
+              ("only join returns ActionHold / calls Propagate", fact_hold_propagate_only_join)],
     "trace": True,
     "parallel": 12,
     "chunk": 100000,
@@ -70,10 +110,11 @@ CFG = {
     "nontrivial": nontrivial,
     "classify": classify,
     "signatures": {"dq_routed": sig_dq, "nested_hold": sig_nested},
-    "rule": "random pipeline configurations (procs 1/2/4/8, capacity 1..64, both pools, batch 1..4, workers 1..3, retries 0..2, failure patterns, optional dead queue, chains of scripted verdict actions and the real join plugin, 1-3 sources x 1-3 streams, 3-40 events) with PRNG jitter in actions / output / feeders; distinct = distinct case line; non-trivial = at least one commit and (a multi-event batch, a failed send or a drop)",
+    "rule": "c02.proc: single-stream, single-processor runs with breaks and discards anywhere in the chain, closed by two flushing events (M3 prediction only, no order oracle); c02.run: random pipeline configurations (procs 1/2/4/8, capacity 1..64, both pools, batch 1..4, workers 1..3, retries 0..2, failure patterns, optional dead queue, chains of scripted verdict actions and the real join plugin, 1-3 sources x 1-3 streams, 3-40 events) with PRNG jitter in actions / output / feeders; distinct = distinct case line; non-trivial = at least one commit and (a multi-event batch, a failed send or a drop)",
     "corr_name": "Core.step? accepts the boundary trace of the real pipeline (M1 ops: put, drop, add, seal, send, giveup, batch commit, commit)",
     "trusted_base": ["trace points in /repo/pipeline (stream.go, streamer.go, processor.go, pipeline.go, batch.go) log inside the lock that serialises the step",
-                     "modelled, not verified: Go runtime (mutex, cond, channels), cenkalti/backoff timing"],
+                     "modelled, not verified: Go runtime (mutex, cond, channels), cenkalti/backoff timing",
+                     "M3 (Model/Proc.lean) is hand-written from processor.go, join.go (Do, flush) and split.go (Do); tied by predicting the processor-side operations of every stream of every trace"],
     "assumptions": ["an event counts as finished when its batch's send returned nil or the error callback was invoked after the retries were exhausted",
                     "events of a stream are handed to the output in read order unless dropped (guard of `add`, established by the stream/processor layer and checked on every trace)"],
 }
